@@ -160,6 +160,8 @@ package httpgen
 //@   loop 2 invariant forall k int :: 0 <= k && k < _i && methodHeaders[k].GetRequired() ==> inDom(allHeaders, lower(methodHeaders[k].GetName())) && allHeaders[lower(methodHeaders[k].GetName())] == methodHeaders[k]
 //@   loop 2 invariant forall k int :: 0 <= k && k < len(serviceHeaders) && serviceHeaders[k].GetRequired() ==> inDom(allHeaders, lower(serviceHeaders[k].GetName()))
 //@   loop 2 invariant forall k int :: 0 <= k && k < len(serviceHeaders) && serviceHeaders[k].GetRequired() && !(exists j int :: 0 <= j && j < _i && methodHeaders[j].GetRequired() && lower(methodHeaders[j].GetName()) == lower(serviceHeaders[k].GetName())) ==> allHeaders[lower(serviceHeaders[k].GetName())] == serviceHeaders[k]
+//@   ensures violations_name_declared_headers: verr != nil ==> (forall k int :: 0 <= k && k < len(verr.Violations) ==> verr.Violations[k] != nil && ((exists j int :: 0 <= j && j < len(methodHeaders) && methodHeaders[j].GetRequired() && verr.Violations[k].Field == methodHeaders[j].GetName()) || (exists j int :: 0 <= j && j < len(serviceHeaders) && serviceHeaders[j].GetRequired() && verr.Violations[k].Field == serviceHeaders[j].GetName())))
+//@   loop 3 invariant forall k int :: 0 <= k && k < len(violations) ==> violations[k] != nil && inDom(allHeaders, lower(violations[k].Field)) && allHeaders[lower(violations[k].Field)].GetName() == violations[k].Field
 //@   loop 3 invariant len(violations) == 0 ==> (forall s string :: done[s] ==> spec.okHdr(r, allHeaders[s]))
 //@   loop 3 invariant len(violations) > 0 ==> (exists s string :: done[s] && inDom(allHeaders, s) && !spec.okHdr(r, allHeaders[s]))
 
